@@ -304,6 +304,8 @@ def rich_module(rnd):
         tests = [{'name': 'test_%d' % k, 'mtag': rnd.random() < 0.4}
                  for k in range(1, 4) if rnd.random() < 0.6]
         c_rec = {'cls': c, 'ctag': rnd.random() < 0.25, 'tests': tests}
+        if rnd.random() < 0.25:
+            c_rec['plain'] = True         # not a ReferenceTestCase: selection and listing are about tags, not base classes
         if parent:
             c_rec['parent'] = parent['cls']
         structure.append(c_rec)
